@@ -143,6 +143,9 @@ func (d Lopd) List() fp.List[int] {
 }
 
 func (d Lopd) Iter() fp.Iterator[int] {
+	if v, ok := PullVisit(d.V); ok { // pull-based / Go-map-based constructor + forced collections
+		return PullIter(d.S, v)
+	}
 	if len(d.S) == 0 && d.V%2 == 0 {
 		return iterator.Empty[int]()
 	}
@@ -197,6 +200,9 @@ func IterInts(it fp.Iterator[int]) []int {
 	n := 0
 	for it.HasNext() {
 		out = append(out, it.Next())
+		if n == 0 {
+			MidGC()
+		}
 		if n++; n > 100000 {
 			panic(vrt.BudgetExceeded{What: "iterator yields more than 100000 elements"})
 		}
